@@ -135,10 +135,17 @@ func (t target) String() string {
 
 // connAddr is how the request is handed to the real client functions.
 func (t target) connAddr() conn.Addr {
+	a, _ := t.connAddrErr()
+	return a
+}
+
+// connAddrErr builds the conn.Addr through the repository's documented constructors; a domain of
+// 1..255 bytes must be accepted.
+func (t target) connAddrErr() (conn.Addr, error) {
 	if t.Kind == "domain" {
-		return conn.MustAddrFromDomainPort(t.Domain, t.Port)
+		return conn.AddrFromDomainPort(t.Domain, t.Port)
 	}
-	return conn.AddrFromIPAndPort(t.IP, t.Port)
+	return conn.AddrFromIPAndPort(t.IP, t.Port), nil
 }
 
 // wire is the RFC 1928 §5 address encoding written by the harness' own clients.
@@ -232,13 +239,17 @@ type s5Reply struct {
 	BndPort uint16
 	Stage   string // where the conversation ended
 	Err     error
+	Pushed  bool // the request was sent although the negotiation had failed
 }
 
 func contains(list []byte, v byte) bool { return bytes.IndexByte(list, v) >= 0 }
 
 // rawSocks5 performs the client side of RFC 1928 with the given method list, following whatever
 // method the server selects (0 → request; 2 → RFC 1929 with cr; anything else → stop).
-func rawSocks5(c io.ReadWriter, methods []byte, cr cred, cmd byte, tgt target) (r s5Reply) {
+//
+// pushy models a client that does not take no for an answer: after X'FF' or a failed RFC 1929 status it
+// sends its request anyway. Such a request must never be honoured.
+func rawSocks5(c io.ReadWriter, methods []byte, cr cred, cmd byte, tgt target, pushy bool) (r s5Reply) {
 	r = s5Reply{Sel: -1, Auth: -1, Rep: -1}
 	msg := append([]byte{5, byte(len(methods))}, methods...)
 	if _, r.Err = c.Write(msg); r.Err != nil {
@@ -279,14 +290,17 @@ func rawSocks5(c io.ReadWriter, methods []byte, cr cred, cmd byte, tgt target) (
 			return
 		}
 		r.Auth = int(b[1])
-		if b[1] != 0 {
+		if b[1] != 0 && !pushy {
 			r.Stage = "auth-refused"
 			return
 		}
 	default:
-		r.Stage = "method-refused"
-		return
+		if !pushy {
+			r.Stage = "method-refused"
+			return
+		}
 	}
+	r.Pushed = (r.Sel != 0 && r.Sel != 2) || r.Auth > 0
 	req := append([]byte{5, cmd, 0}, tgt.wire()...)
 	if _, r.Err = c.Write(req); r.Err != nil {
 		r.Stage = "write-request"
